@@ -863,6 +863,120 @@ func init() {
 			// no branching: both alternatives are values already
 			return m.mergeValue(args[0].(*Term), args[1], args[2])
 		},
+		"sliceSnap": func(m *Machine, st *State, fr *Frame, instr ssa.Instruction, fn *ssa.Function, args []Value) Value {
+			sl := args[0].(*Slice)
+			ss := &SliceSnap{Len: sl.Len, Off: sl.Off, Elem: sl.Elem}
+			for _, l := range m.ts.Leaves(sl.Elem) {
+				ss.Arrs = append(ss.Arrs, m.elemArr(st, sl.Elem, sl.Arr, l))
+			}
+			return ss
+		},
+		"ssLen": func(m *Machine, st *State, fr *Frame, instr ssa.Instruction, fn *ssa.Function, args []Value) Value {
+			return args[0].(*SliceSnap).Len
+		},
+		"ssAt": func(m *Machine, st *State, fr *Frame, instr ssa.Instruction, fn *ssa.Function, args []Value) Value {
+			ss := args[0].(*SliceSnap)
+			i := args[1].(*Term)
+			var terms []*Term
+			for k := range m.ts.Leaves(ss.Elem) {
+				terms = append(terms, m.ctx.Select(ss.Arrs[k], m.idxAdd(ss.Off, i)))
+			}
+			v := m.ts.Unflatten(ss.Elem, &terms)
+			m.assumeWellFormed(st, ss.Elem, v)
+			return v
+		},
+		"forallGrid": func(m *Machine, st *State, fr *Frame, instr ssa.Instruction, fn *ssa.Function, args []Value) Value {
+			c := m.ctx
+			n1, n2 := args[0].(*Term), args[1].(*Term)
+			f := args[2].(*Term)
+			cfn, ok := m.closureCode(st, f)
+			if !ok {
+				panic(unsupported("forallGrid with unknown function"))
+			}
+			fv := m.closureBindings(st, f, cfn)
+			z := m.ts.IdxConst(0)
+			if m.refute {
+				four := m.ts.IdxConst(4)
+				st.assume(c.And(m.idxLe(n1, four), m.idxLe(n2, four)))
+				var parts []*Term
+				for a := int64(0); a < 4; a++ {
+					for b := int64(0); b < 4; b++ {
+						ia, ib := m.ts.IdxConst(a), m.ts.IdxConst(b)
+						body := m.pureCall(st, cfn, []Value{ia, ib}, fv)[0].(*Term)
+						parts = append(parts, c.Implies(c.And(m.idxLt(ia, n1), m.idxLt(ib, n2)), body))
+					}
+				}
+				return c.And(parts...)
+			}
+			i := c.Bound("gi", m.ts.Idx())
+			j := c.Bound("gj", m.ts.Idx())
+			base := len(st.pc)
+			body := m.pureCall(st, cfn, []Value{i, j}, fv)[0].(*Term)
+			rng := c.And(m.idxLe(z, i), m.idxLt(i, n1), m.idxLe(z, j), m.idxLt(j, n2))
+			var side []*Term
+			kept := st.pc[:base:base]
+			for _, p := range st.pc[base:] {
+				if p.hasBound {
+					side = append(side, p)
+				} else {
+					kept = append(kept, p)
+				}
+			}
+			st.pc = kept
+			if len(side) > 0 {
+				a := c.And(side...)
+				st.pc = append(st.pc, c.Forall([]*Term{i, j}, c.Implies(rng, a)))
+				body = c.Implies(a, body)
+			}
+			return c.Forall([]*Term{i, j}, c.Implies(rng, body))
+		},
+		"forallPairs": func(m *Machine, st *State, fr *Frame, instr ssa.Instruction, fn *ssa.Function, args []Value) Value {
+			c := m.ctx
+			lo, hi := args[0].(*Term), args[1].(*Term)
+			f := args[2].(*Term)
+			cfn, ok := m.closureCode(st, f)
+			if !ok {
+				panic(unsupported("forallPairs with unknown function"))
+			}
+			fv := m.closureBindings(st, f, cfn)
+			if m.refute {
+				four := m.ts.IdxConst(4)
+				st.assume(m.idxLe(m.idxSub(hi, lo), four))
+				var parts []*Term
+				for a := int64(0); a < 4; a++ {
+					for b := int64(0); b < 4; b++ {
+						if a == b {
+							continue
+						}
+						ia, ib := m.idxAdd(lo, m.ts.IdxConst(a)), m.idxAdd(lo, m.ts.IdxConst(b))
+						body := m.pureCall(st, cfn, []Value{ia, ib}, fv)[0].(*Term)
+						parts = append(parts, c.Implies(c.And(m.idxLt(ia, hi), m.idxLt(ib, hi)), body))
+					}
+				}
+				return c.And(parts...)
+			}
+			i := c.Bound("pi", m.ts.Idx())
+			j := c.Bound("pj", m.ts.Idx())
+			base := len(st.pc)
+			body := m.pureCall(st, cfn, []Value{i, j}, fv)[0].(*Term)
+			rng := c.And(m.idxLe(lo, i), m.idxLt(i, hi), m.idxLe(lo, j), m.idxLt(j, hi), c.Neq(i, j))
+			var side []*Term
+			kept := st.pc[:base:base]
+			for _, p := range st.pc[base:] {
+				if p.hasBound {
+					side = append(side, p)
+				} else {
+					kept = append(kept, p)
+				}
+			}
+			st.pc = kept
+			if len(side) > 0 {
+				a := c.And(side...)
+				st.pc = append(st.pc, c.Forall([]*Term{i, j}, c.Implies(rng, a)))
+				body = c.Implies(a, body)
+			}
+			return c.Forall([]*Term{i, j}, c.Implies(rng, body))
+		},
 		"ghostTrue": func(m *Machine, st *State, fr *Frame, instr ssa.Instruction, fn *ssa.Function, args []Value) Value {
 			return m.ctx.T
 		},
@@ -911,6 +1025,27 @@ func (m *Machine) quant(st *State, args []Value, universal bool) Value {
 		panic(unsupported("quantifier with unknown function"))
 	}
 	fv := m.closureBindings(st, f, cfn)
+	if m.refute {
+		// bounded refutation mode: expand the quantifier over at most 4 indices (and restrict the
+		// search to such ranges) so that the query is quantifier-free and the solver returns a model
+		four := m.ts.IdxConst(4)
+		st.assume(m.idxLe(m.idxSub(hi, lo), four))
+		var parts []*Term
+		for j := int64(0); j < 4; j++ {
+			idx := m.idxAdd(lo, m.ts.IdxConst(j))
+			b := m.pureCall(st, cfn, []Value{idx}, fv)[0].(*Term)
+			in := m.idxLt(idx, hi)
+			if universal {
+				parts = append(parts, c.Implies(in, b))
+			} else {
+				parts = append(parts, c.And(in, b))
+			}
+		}
+		if universal {
+			return c.And(parts...)
+		}
+		return c.Or(parts...)
+	}
 	i := c.Bound("k", m.ts.Idx())
 	base := len(st.pc)
 	body := m.pureCall(st, cfn, []Value{i}, fv)[0].(*Term)
@@ -926,16 +1061,17 @@ func (m *Machine) quant(st *State, args []Value, universal bool) Value {
 		}
 	}
 	st.pc = kept
+	rng := c.And(m.idxLe(lo, i), m.idxLt(i, hi))
 	if len(side) > 0 {
 		a := c.And(side...)
-		st.pc = append(st.pc, c.Forall([]*Term{i}, a))
+		// facts about values read at index i hold for the indices the quantifier ranges over
+		st.pc = append(st.pc, c.Forall([]*Term{i}, c.Implies(rng, a)))
 		if universal {
 			body = c.Implies(a, body)
 		} else {
 			body = c.And(a, body)
 		}
 	}
-	rng := c.And(m.idxLe(lo, i), m.idxLt(i, hi))
 	if universal {
 		return c.Forall([]*Term{i}, c.Implies(rng, body))
 	}
